@@ -87,6 +87,9 @@ Step ==
                                                               ELSE IF t.size >= Cardinality(wlive \ wmaybe) /\ t.size <= Cardinality(wlive \cup wmaybe)
                                                                    THEN {} ELSE {<<l, "SizeNotSum">>}))
                             /\ UNCHANGED <<cat, mem, maybe, ref, order, wlive, wmaybe>>
+       \* a partition-level RPC sent to a node that knows the partition but does not host it must be refused
+       [] t.ev = "probe" -> /\ viol' = viol \cup (IF t.ok = 1 THEN {<<l, "ForeignPartitionServed">>} ELSE {})
+                            /\ UNCHANGED <<cat, mem, maybe, ref, order, wlive, wmaybe>>
        [] t.ev = "died" -> viol' = viol \cup {<<l, "NodeDied">>} /\ UNCHANGED <<cat, mem, maybe, ref, order, wlive, wmaybe>>
        [] t.ev = "view" -> /\ viol' = viol \cup ViewViol(t)
                            /\ ref' = (IF ref = <<>> /\ Ids(t.datasets) = cat THEN t.datasets ELSE ref)
